@@ -6,6 +6,11 @@
  *   cert <mode> <entry>... name:<hex>          -> "rc=<0|-1|-2> err=<class> contains=<0|1>"
  *   hs   <mode> <entry>... name:<hex>          -> "hs=<ok|fail> err=<class>"   (real handshake over a
  *                                                 socketpair, self-signed cert, verify_cert off)
+ *   hsn  <mode> <entry>... name:<hex>          -> like hs, but the client goes through the public
+ *                                                 tls_connect_servername("127.0.0.1", port, name) over a
+ *                                                 loopback TCP connection (hs itself uses tls_connect_socket,
+ *                                                 chs tls_connect_fds); "hs=nonet" never matches the model and
+ *                                                 is only printed when loopback TCP is unavailable
  *   hsr  <mode> <script> <entry>... name:<hex> -> "calls=<res>,<res>,..."  one connection, the calls of
  *                                                 <script> (1..8 letters: h = tls_handshake, w = tls_write of
  *                                                 1 byte, r = tls_read of 1 byte) are made one after the other
@@ -63,6 +68,8 @@
 #include <fcntl.h>
 #include <poll.h>
 #include <sys/socket.h>
+#include <netinet/in.h>
+#include <arpa/inet.h>
 
 #include "hcommon.h"
 
@@ -273,6 +280,40 @@ static int drive_call(char what, struct tls *cli, struct tls *sconn, int *sdone,
 
 /* pcli != NULL: use (and keep) this client context instead of a fresh one.
  * script != NULL: hsr op (see top of file) instead of the single handshake */
+static int g_via_servername;	/* set by the hsn op for the next do_handshake */
+
+/* loopback TCP pair through tls_connect_servername; returns 0 ok, -1 no network, -2 connect failed */
+static int tcp_connect_servername(struct tls *cli, const char *name, int *srv_fd, int *cli_fd)
+{
+	struct sockaddr_in sa;
+	socklen_t sl = sizeof sa;
+	char port[16];
+	int ls = socket(AF_INET, SOCK_STREAM, 0), afd;
+
+	if (ls < 0)
+		return -1;
+	memset(&sa, 0, sizeof sa);
+	sa.sin_family = AF_INET;
+	sa.sin_addr.s_addr = htonl(INADDR_LOOPBACK);
+	if (bind(ls, (struct sockaddr *)&sa, sizeof sa) != 0 || listen(ls, 4) != 0 ||
+	    getsockname(ls, (struct sockaddr *)&sa, &sl) != 0) {
+		close(ls);
+		return -1;
+	}
+	snprintf(port, sizeof port, "%d", ntohs(sa.sin_port));
+	if (tls_connect_servername(cli, "127.0.0.1", port, name) != 0) {
+		close(ls);
+		return -2;
+	}
+	afd = accept(ls, NULL, NULL);
+	close(ls);
+	if (afd < 0)
+		return -1;
+	*srv_fd = afd;
+	*cli_fd = cli->socket;
+	return 0;
+}
+
 static void do_handshake(X509 *x, const char *name, struct tls *pcli, const char *script)
 {
 	struct tls_config *scfg = NULL;
@@ -306,15 +347,27 @@ static void do_handshake(X509 *x, const char *name, struct tls *pcli, const char
 	if (tls_configure(srv, scfg) != 0) { stage = "srvcfg"; goto setup_fail; }
 	if (tls_configure(cli, g_good_cfg) != 0) { stage = "clicfg"; goto setup_fail; }
 	clear_error(cli);	/* an application reads tls_error only after a failure of THIS attempt */
+	if (g_via_servername) {
+		int r;
+		g_via_servername = 0;
+		r = tcp_connect_servername(cli, name, &sv[0], &sv[1]);
+		if (r == -1) { printf("hs=nonet err=none\n"); goto out; }
+		if (r == -2) { printf("hs=connect-fail err=%s\n", err_class(tls_error(cli))); goto out; }
+		set_nonblock(sv[0]);
+		set_nonblock(sv[1]);
+		if (tls_accept_socket(srv, &sconn, sv[0]) != 0) { stage = "accept"; goto setup_fail; }
+		goto connected;
+	}
 	if (socketpair(AF_UNIX, SOCK_STREAM, 0, sv) != 0) { stage = "socketpair"; goto setup_fail; }
 	set_nonblock(sv[0]);
 	set_nonblock(sv[1]);
 	if (tls_accept_fds(srv, &sconn, sv[0], sv[0]) != 0) { stage = "accept"; goto setup_fail; }
-	if (tls_connect_fds(cli, sv[1], sv[1], name) != 0) {
+	if ((pcli ? tls_connect_fds(cli, sv[1], sv[1], name) : tls_connect_socket(cli, sv[1], name)) != 0) {
 		/* e.g. OpenSSL refuses the SNI value: happens before any name verification */
 		printf("hs=connect-fail err=%s\n", err_class(tls_error(cli)));
 		goto out;
 	}
+connected:
 	if (script) {
 		int sd = 0, sw = 0, i;
 		printf("calls=");
@@ -522,7 +575,7 @@ int main(void)
 		}
 		if (n >= 3 && n < 64 && strlen(w[1]) == 1 &&
 		    (strcmp(w[0], "cert") == 0 || strcmp(w[0], "hs") == 0 || strcmp(w[0], "chs") == 0 ||
-		     strcmp(w[0], "hsr") == 0)) {
+		     strcmp(w[0], "hsr") == 0 || strcmp(w[0], "hsn") == 0)) {
 			int bad = 0;
 			int is_chs = (strcmp(w[0], "chs") == 0);
 			int is_hsr = (strcmp(w[0], "hsr") == 0);
@@ -547,6 +600,7 @@ int main(void)
 				continue;
 			}
 			if (is_hs) {
+				g_via_servername = (strcmp(w[0], "hsn") == 0);
 				do_handshake(x, name, is_chs ? pcli_get() : NULL, script);
 			} else {
 				int rc, contains;
